@@ -1,15 +1,21 @@
 import SpVerif.Model.PackFS
+import SpVerif.Model.PackProto
 import Mathlib.Data.List.Perm.Basic
 /-!
 # C10 — pack_partitions_to_parquet leaves a complete, clean, re-readable dataset
 
-Theorem about the renumbering step (the only place where a part file is moved onto another name): for every pattern of
+`C10_contiguous`: the renumbering step (the only place where a part file is moved onto another name): for every pattern of
 empty output partitions the moves, executed in the coded order, never overwrite a live file and leave exactly the non-empty
-parts, in their Hilbert order, numbered 0..m-1.  The rest of the protocol (directory layout, temporary directories,
-overwrite) is checked on the real filesystem by the correspondence; the Lean model does not cover it yet (partial).
+parts, in their Hilbert order, numbered 0..m-1.
+`C10_final_tree`: the whole fault-free protocol (`Model/PackProto.lean`): for every number of output and input partitions, every
+pattern of empty cells, every temporary-directory mode, a prior dataset with `overwrite=True`, and **every order in which the
+concatenation tasks run**, the run ends with exactly the part files `0 … m-1` (holding the non-empty partitions in order) and the
+two metadata files - no placeholder directory, no temporary directory, no sub-part file, no `{uuid}` directory, nothing of the
+prior dataset.  The model's final tree is compared with the real directory tree on every correspondence case; the parquet
+encoding of the files is pyarrow's.
 -/
 namespace SpVerif
-open PackFS
+open PackFS PackProto
 
 /-- strictly increasing indices, all at least `j` -/
 def IncFrom : Nat → List Nat → Prop
@@ -109,6 +115,108 @@ theorem C10_no_empty_no_moves (k : Nat) : moves (List.range k) = [] := by
   intro p hp
   obtain ⟨i, hi, rfl⟩ := List.mem_iff_getElem.mp hp
   simp [List.getElem_zip]
+
+/-! ### the whole protocol -/
+
+theorem incFrom_filter_range' (p : Nat → Bool) (j k : Nat) : IncFrom j ((List.range' j k).filter p) := by
+  induction k generalizing j with
+  | zero => simp [IncFrom]
+  | succ k ih =>
+    rw [List.range'_succ, List.filter_cons]
+    split
+    · exact ⟨Nat.le_refl _, ih (j + 1)⟩
+    · exact incFrom_mono (ih (j + 1)) (by omega)
+
+theorem foldl_concat (nIn : Nat) (cells : Nat → Nat → Bool) (order : List Nat) (t : Tree) :
+    order.foldl (concat nIn cells) t =
+      { t with tmpDirs := t.tmpDirs.filter (fun x => !order.contains x),
+               subs := t.subs.filter (fun s => !order.contains s.1),
+               placeholders := t.placeholders.filter (fun x => !order.contains x),
+               files := t.files ++ (order.filter (nonEmptyPart nIn cells)).map (fun i => (i, i)) } := by
+  induction order generalizing t with
+  | nil => simp
+  | cons i rest ih =>
+    rw [List.foldl_cons, ih]
+    simp only [concat, List.filter_filter, List.contains_cons, Bool.not_or]
+    have c1 : ∀ (l : List Nat), l.filter (fun a => (!rest.contains a) && (a != i)) = l.filter (fun x => (!(x == i)) && !rest.contains x) := by
+      intro l; apply List.filter_congr; intro x _; rw [Bool.and_comm]; rfl
+    have c2 : ∀ (l : List (Nat × Nat)), l.filter (fun a => (!rest.contains a.1) && (a.1 != i)) = l.filter (fun s => (!(s.1 == i)) && !rest.contains s.1) := by
+      intro l; apply List.filter_congr; intro x _; rw [Bool.and_comm]; rfl
+    rw [c1, c1, c2]
+    by_cases hne : nonEmptyPart nIn cells i = true
+    · simp [hne, List.filter_cons, List.append_assoc]
+    · simp [hne, List.filter_cons]
+
+/-- **the whole fault-free run leaves a complete, clean dataset**, whatever the order of the concatenation tasks -/
+theorem C10_final_tree (m : Mode) (overwrite : Bool) (n nIn : Nat) (cells : Nat → Nat → Bool) (order : List Nat)
+    (hperm : order.Perm (List.range n)) (t₀ : Tree) (h0 : overwrite = true ∨ t₀ = PackProto.empty)
+    (hext : t₀.tmpDirs = [] ∧ t₀.subs = [] ∧ t₀.uuidDir = false) :
+    let t := run m overwrite n nIn cells order t₀
+    let ne := nonEmptyList n nIn cells
+    t.placeholders = [] ∧ t.tmpDirs = [] ∧ t.subs = [] ∧ t.uuidDir = false ∧ t.metaF = true ∧ t.cmetaF = true ∧ t.stale = [] ∧
+      t.files.Perm ((List.range ne.length).zip ne) := by
+  intro t ne
+  obtain ⟨e1, e2, e3⟩ := hext
+  -- after the optional removal the relevant part of the tree is clean
+  have hclean : ∀ t1 : Tree, t1 = (if overwrite then overwriteRm m t₀ else t₀) →
+      t1.placeholders = [] ∧ t1.tmpDirs = [] ∧ t1.subs = [] ∧ t1.files = [] ∧ t1.uuidDir = false ∧ t1.stale = [] := by
+    intro t1 ht1
+    rcases h0 with h | h
+    · subst h
+      simp only [if_true] at ht1
+      subst ht1
+      refine ⟨rfl, e1, ?_, rfl, e3, rfl⟩
+      show (if m = Mode.inside then [] else t₀.subs) = []
+      split
+      · rfl
+      · exact e2
+    · subst h
+      cases overwrite <;> simp at ht1 <;> subst ht1 <;> simp [overwriteRm, PackProto.empty]
+  obtain ⟨c1, c2, c3, c4, c5, c6⟩ := hclean _ rfl
+  have hin : ∀ x, x < n → order.contains x = true := by
+    intro x hx
+    rw [List.contains_iff_mem]
+    exact hperm.symm.subset (List.mem_range.mpr hx)
+  have hmem : ∀ x, x < n → x ∈ order := fun x hx => hperm.symm.subset (List.mem_range.mpr hx)
+  have hfiles : t.files = compactFrom 0 ne ((order.filter (nonEmptyPart nIn cells)).map (fun i => (i, i))) := by
+    simp only [t, PackProto.run, metadata, renumber, cleanup, foldl_concat, writeSubs, scaffold, c4, List.nil_append, ne]
+  refine ⟨?_, ?_, ?_, ?_, ?_, ?_, ?_, ?_⟩
+  · simp only [t, PackProto.run, metadata, renumber, cleanup, foldl_concat, writeSubs, scaffold, c1, List.nil_append]
+    rw [List.filter_eq_nil_iff]
+    intro x hx
+    simpa using hmem x (List.mem_range.mp hx)
+  · simp only [t, PackProto.run, metadata, renumber, cleanup, foldl_concat, writeSubs, scaffold, c2]
+    split
+    · simp
+    · rw [List.nil_append, List.filter_eq_nil_iff]
+      intro x hx
+      simpa using hmem x (List.mem_range.mp hx)
+  · simp only [t, PackProto.run, metadata, renumber, cleanup, foldl_concat, writeSubs, scaffold, c3, List.nil_append]
+    rw [List.filter_eq_nil_iff]
+    intro s hs
+    simp only [List.mem_flatMap, List.mem_map, List.mem_filter, List.mem_range] at hs
+    obtain ⟨i, hi, j, _, rfl⟩ := hs
+    simpa using hmem i hi
+  · simp [t, PackProto.run, metadata, renumber, cleanup]
+  · simp [t, PackProto.run, metadata]
+  · simp [t, PackProto.run, metadata]
+  · simp only [t, PackProto.run, metadata, renumber, cleanup, foldl_concat, writeSubs, scaffold, c6]
+  · rw [hfiles]
+    have hinc : IncFrom 0 ne := by
+      have := incFrom_filter_range' (nonEmptyPart nIn cells) 0 n
+      simpa [ne, nonEmptyList, List.range_eq_range'] using this
+    have hs : ((order.filter (nonEmptyPart nIn cells)).map (fun i => (i, i))).Perm ([] ++ ne.map (fun i => (i, i))) := by
+      simp only [List.nil_append, ne, nonEmptyList]
+      exact List.Perm.map _ (List.Perm.filter _ hperm)
+    have := compactFrom_spec 0 ne [] _ hinc (by simp) hs
+    simpa [List.range_eq_range'] using this
+
+/-! non-vacuity: 4 output partitions (1 and 2 empty), 2 input partitions, external `{uuid}` temp dir, overwrite of a prior
+dataset of 6 parts, concatenation tasks finishing in the order 2,0,3,1 -/
+example :
+    run .outsideUuid true 4 2 (fun i j => (i == 0 && j == 0) || (i == 3)) [2, 0, 3, 1]
+      { PackProto.empty with files := [(0, 1000), (5, 1005)], metaF := true, cmetaF := true }
+    = { PackProto.empty with files := [(1, 3), (0, 0)], metaF := true, cmetaF := true } := by decide
 
 /-! non-vacuity: output partitions 1, 2 and 5 of 0..7 are empty -/
 example : IncFrom 0 [0, 3, 4, 6, 7] ∧ compact [0, 3, 4, 6, 7] = [(4, 7), (3, 6), (2, 4), (1, 3), (0, 0)] := by
